@@ -1505,6 +1505,16 @@ class Canon(ast.NodeTransformer):
             items = [node.left] + list(node.comparators)
             vals = [ast.Compare(left=copy.deepcopy(a), ops=[op], comparators=[copy.deepcopy(b)]) for a, op, b in zip(items, node.ops, items[1:])]
             return ast.copy_location(ast.BoolOp(op=ast.And(), values=vals), node)
+        # next((e for .. if c), S) is not S  ==>  any(c for ..)      (S a sentinel the sequence cannot contain)
+        if len(node.ops) == 1 and isinstance(node.ops[0], (ast.IsNot, ast.Is)) and isinstance(node.left, ast.Call) and ast.unparse(node.left.func) == "next" \
+                and len(node.left.args) == 2 and isinstance(node.left.args[0], ast.GeneratorExp) and len(node.left.args[0].generators) == 1 \
+                and isinstance(node.comparators[0], (ast.Name, ast.Constant)) and ast.unparse(node.comparators[0]) == ast.unparse(node.left.args[1]) \
+                and (isinstance(node.comparators[0], ast.Name) or node.comparators[0].value is None) and node.left.args[0].generators[0].ifs:
+            g = node.left.args[0].generators[0]
+            cond = g.ifs[0] if len(g.ifs) == 1 else ast.BoolOp(op=ast.And(), values=g.ifs)
+            gen = ast.GeneratorExp(elt=cond, generators=[ast.comprehension(target=g.target, iter=g.iter, ifs=[], is_async=0)])
+            call = ast.Call(func=ast.Name(id="any", ctx=ast.Load()), args=[gen], keywords=[])
+            return ast.copy_location(call if isinstance(node.ops[0], ast.IsNot) else ast.UnaryOp(op=ast.Not(), operand=call), node)
         # K == x  ==>  x == K      (K a literal / enum member / constant name, x not)
         if len(node.ops) == 1 and isinstance(node.ops[0], (ast.Eq, ast.NotEq)):
             def constlike(e):
@@ -1579,6 +1589,12 @@ class Canon(ast.NodeTransformer):
                 else:
                     args.append(a)
             node.args = args
+        # range(max(x, 0))  ==>  range(x)       (a negative count yields the empty range either way)
+        if fname == "range" and len(node.args) == 1 and isinstance(node.args[0], ast.Call) and ast.unparse(node.args[0].func) == "max" and len(node.args[0].args) == 2:
+            a, b = node.args[0].args
+            other = b if (isinstance(a, ast.Constant) and a.value == 0) else (a if (isinstance(b, ast.Constant) and b.value == 0) else None)
+            if other is not None:
+                return ast.copy_location(ast.Call(func=node.func, args=[other], keywords=[]), node)
         # len([E for x in IT])  ==>  len(IT)
         if fname == "len" and len(node.args) == 1 and isinstance(node.args[0], (ast.ListComp, ast.GeneratorExp)) and len(node.args[0].generators) == 1 \
                 and not node.args[0].generators[0].ifs and _pure_expr(node.args[0].elt):
@@ -1873,6 +1889,18 @@ class AppendLoops(ast.NodeTransformer):
             nxt = stmts[i + 1] if i + 1 < len(stmts) else None
             if isinstance(st, ast.AnnAssign) and isinstance(st.target, ast.Name) and st.value is not None:
                 st = ast.copy_location(ast.Assign(targets=[st.target], value=st.value, lineno=st.lineno), st)
+            if isinstance(st, ast.Assign) and len(st.targets) == 1 and isinstance(st.targets[0], ast.Name) and isinstance(st.value, ast.List) and not st.value.elts \
+                    and not (isinstance(nxt, ast.For)) and nxt is not None:
+                # statements between `X = []` and its filling loop that do not mention X: move the empty list down to the loop
+                x0 = st.targets[0].id
+                j = i + 1
+                while j < len(stmts) and isinstance(stmts[j], (ast.Assign, ast.AnnAssign, ast.Expr)) and not any(isinstance(n, ast.Name) and n.id == x0 for n in ast.walk(stmts[j])):
+                    j += 1
+                if j < len(stmts) and j > i + 1 and isinstance(stmts[j], ast.For) and not stmts[j].orelse and len(stmts[j].body) == 1 \
+                        and any(isinstance(n, ast.Call) and isinstance(n.func, ast.Attribute) and n.func.attr == "append" and isinstance(n.func.value, ast.Name) and n.func.value.id == x0
+                                for n in ast.walk(stmts[j])):
+                    stmts = stmts[:i] + stmts[i + 1:j] + [st] + stmts[j:]
+                    continue
             if isinstance(st, ast.Assign) and len(st.targets) == 1 and isinstance(st.targets[0], ast.Name) and isinstance(st.value, ast.List) and not st.value.elts \
                     and isinstance(nxt, ast.For) and not nxt.orelse and len(nxt.body) == 1:
                 x = st.targets[0].id
